@@ -13,6 +13,11 @@ def gen(rng):
     kind = rng.choice(["bloom", "bloom", "ondisk", "expanding"])
     est = rng.choice([1, 2, 3, 5, 8, 13, 40, 150])
     fpr = rng.choice([0.5, 0.3, 0.2, 0.1, 0.05, 0.01, 0.001, rng.uniform(0.001, 0.9)])
+    if rng.random() < 0.2:
+        # rates with many significant digits and very small ones, on a filter big enough for the bit count to
+        # depend on them: what a reload re-derives from the stored 32-bit rate has to be the same geometry
+        est = rng.choice([400, 900, 2500])
+        fpr = rng.choice([0.0001234567, 3.3e-6, 7.77e-7, 1.0 / 3.0, 1.0 / 7.0, rng.uniform(1e-7, 1e-4), rng.uniform(1e-4, 1e-2)])
     keys = keys_pool(rng, rng.randint(2, 25))
     ops = []
     for _ in range(rng.randint(2, 40)):
